@@ -90,12 +90,13 @@ type Tr struct {
 	loops     map[*ssa.BasicBlock]*loopInfo
 	backEdge  map[[2]*ssa.BasicBlock]bool
 	defers    []deferRec
-	posts     map[int][]string // ensures index -> per-return formulas
+	posts     map[int][]Cl // ensures index -> per-return formulas
 	frameOb   []string
 	kindCount map[string]int
 	paramEnv  map[string]Val
 	debugVals map[string][]ssa.Value // source var name -> values (from DebugRef)
 	retCount  int
+	preOnly   bool // applyContract: check the preconditions only (go statements)
 	locals    []*ssa.Alloc
 	genCount  int
 	rangeIt   map[ssa.Value]*rangeState
@@ -135,6 +136,45 @@ func (t *Tr) assumeRaw(cond string) {
 		return
 	}
 	t.vc.Items = append(t.vc.Items, Item{Kind: itAssume, Text: fmt.Sprintf("(assert %s)", cond)})
+}
+
+func (t *Tr) guard(c string) string {
+	if t.curReach == "true" {
+		return c
+	}
+	return fmt.Sprintf("(=> %s %s)", t.curReach, c)
+}
+
+// assumeCl adds a two-rendering clause under the current reachability guard.
+func (t *Tr) assumeCl(c Cl, raw bool) {
+	if c.Q == "true" && c.U == "true" {
+		return
+	}
+	q, u := c.Q, c.U
+	if !raw {
+		q, u = t.guard(q), t.guard(u)
+	}
+	it := Item{Kind: itAssume, Text: fmt.Sprintf("(assert %s)", q)}
+	if u != q {
+		it.AltU = fmt.Sprintf("(assert %s)", u)
+	}
+	t.vc.Items = append(t.vc.Items, it)
+}
+
+// checkCl emits an obligation in both renderings and assumes it afterwards.
+func (t *Tr) checkCl(name string, c Cl, src string, pos token.Pos) {
+	p := ""
+	if pos.IsValid() {
+		pp := t.w.Prog.Fset.Position(pos)
+		p = fmt.Sprintf("%s:%d", shortPath(pp.Filename), pp.Line)
+	}
+	it := Item{Kind: itOblig, Text: t.guard(c.Q), Name: name, Src: src, Pos: p}
+	if c.U != c.Q {
+		it.AltU = t.guard(c.U)
+	}
+	t.vc.Items = append(t.vc.Items, it)
+	t.vc.NOblig++
+	t.assumeCl(c, false)
 }
 
 // assume adds cond under the current reachability guard.
@@ -273,11 +313,12 @@ func (t *Tr) allocRef(st *State) string {
 
 // assumeAllocated: any reference obtained from a parameter, a load or a call
 // result denotes an object allocated before now.
-func (t *Tr) assumeTyped(x Term, ty types.Type) {
+func (t *Tr) assumeTyped(x Term, ty types.Type) { t.assumeTypedAt(x, ty, t.next(t.cur)) }
+
+func (t *Tr) assumeTypedAt(x Term, ty types.Type, nx string) {
 	if f := t.vc.typeFact(x, ty); f != "" {
 		t.assume(f)
 	}
-	nx := t.next(t.cur)
 	switch ty.Underlying().(type) {
 	case *types.Pointer, *types.Map, *types.Chan:
 		t.assume(fmt.Sprintf("(< %s %s)", x.S, nx))
@@ -513,7 +554,7 @@ func (t *Tr) rangeUpdate(oldRow, lo, cnt string, et types.Type, inRange func(i s
 	// bounded instances around the written range (candidate models only)
 	var c strings.Builder
 	fmt.Fprintf(&c, "(declare-const %s %s)\n", name, as)
-	for j := -40; j < 64; j++ {
+	for j := -40; j < 128; j++ {
 		qi := fmt.Sprintf("(+ %s %d)", lo, j)
 		if j < 0 {
 			qi = fmt.Sprintf("(- %s %d)", lo, -j)
